@@ -299,7 +299,7 @@ def gen_spec(rng, index=0):
     nouts = int(rng.choice([1, 2, 3], p=[.4, .4, .2]))
     outs = []
     mode = str(rng.choice(['once', 'compile2', 'once', 'compile_par_call_ser'], p=[.45, .4, .1, .05]))
-    if rng.random() < .1:
+    if index % 8 == 0 or rng.random() < .03:
         # an outer loop whose run-time length is 1 (no fork happens, maxprocs stays n) around nested inner loops
         g.loops['i'] = dict(arg='ni', value=1, value2=int(rng.choice([2, 3, 5])), max=9)
         g.features.add('runtime-length-1-around-inner-loops')
